@@ -39,6 +39,18 @@ CHECKS = {
              "FUNCTION_TRACING_ENABLED staying in builtins as False are not counted as hooks or guards. sys.meta_path contents and importlib cache functions are "
              "observed on the implementation only (the model has a finder count).",
         ref="DESIGN.md section 7 C07"),
+    "C09": dict(
+        technique="Coq proof (induction over frame trees with a relation between a frame's local trace function with and without pyccolo) on a model of CPython's trace protocol + composed tracers; correspondence against real sys.settrace runs",
+        text="C09_handler_log: for every run (tree of frames with line/exception events and nested calls), every subscription subset of "
+             "{call,line,return,exception} and every pre-installed third-party function, the handler log equals the plain recorder's event stream "
+             "filtered to the subscription. C09_third_party: the third-party function (returning itself, a distinct local function, or declining frames) "
+             "receives exactly the events it receives without pyccolo, each through the same one of its functions. The model is tied to tracer.py and "
+             "to the interpreter by rebuilding the frame tree of 90 real runs from a plain recorder's log and comparing model logs with the handler / "
+             "third-party logs observed under pyccolo; the oracle also compares program results, exception call chains and sys.gettrace() afterwards, "
+             "including third-party functions installed mid-run by user code.",
+        note="Trusted: Coq kernel + vm_compute; the transcription of trace_trampoline (validated by the correspondence itself); hand transcription of "
+             "_sys_tracer/_make_composed_tracer; harness. Mid-run installation and program results are decided by the oracle, not by a theorem; handlers are observing.",
+        ref="DESIGN.md section 7 C09"),
     "C15": dict(
         technique="Coq proof (list/association reasoning over the scaffold of tracer.exec) on a transcribed model + in-coqc correspondence + function-body reference oracle",
         text="C15_result_partial (the returned mapping, the caller's mapping and globals equal those of running the program's bindings as a function body), "
